@@ -450,7 +450,9 @@ func runMgr(args []string) {
 			fmt.Sscanf(m[len(" h="):], "%d", &n)
 			return fmt.Sprintf(" h=%d", k*100000+n)
 		}))
-		if r.err != nil {
+		if r.err != nil && harnessRace(r.stderr) {
+			sb.WriteString("# a child's harness read raced with the engine's unlocked open-game state; its histories are not in this trace\n")
+		} else if r.err != nil {
 			os.WriteFile(fmt.Sprintf("%s.crash-unattributed-h%d.txt", *out, k), []byte(r.stderr), 0644)
 			sb.WriteString("cc anomaly CRASH.unattributed-engine-panic\n")
 		}
